@@ -179,6 +179,7 @@ type WalkReport struct {
 	Why    string
 	Detail string
 	Pos    ssa.Instruction
+	Fresh  *ssa.MakeSlice // wantCopy: the fresh slice the elements are copied into
 }
 
 // validatingWalk checks the rule described at the top of the file for the
@@ -186,6 +187,12 @@ type WalkReport struct {
 // If wantCopy is set, the function must also store each element, at the
 // same index, into a fresh slice of the same length and return it on success.
 func validatingWalk(w *World, fn *ssa.Function, isSource func(ssa.Value) bool, wantCopy bool) WalkReport {
+	return validatingWalkOpt(w, fn, isSource, wantCopy, false)
+}
+
+// validatingWalkOpt: with keepSlice the copy is not returned but used by the
+// function itself after the walk (the caller judges what happens to it).
+func validatingWalkOpt(w *World, fn *ssa.Function, isSource func(ssa.Value) bool, wantCopy, keepSlice bool) WalkReport {
 	var loop *SliceLoop
 	loops := sliceLoops(fn)
 	for i := range loops {
@@ -226,7 +233,22 @@ func validatingWalk(w *World, fn *ssa.Function, isSource func(ssa.Value) bool, w
 				name, recv = f.Name(), cc.Args[0]
 			}
 			if name != "Validate" || recv == nil || !elementOf(recv, loop.S, loop.Idx) {
-				continue
+				// the per-element check may be delegated to a helper that is
+				// given the element and returns nil only after the element's
+				// own Validate() returned nil
+				if h := cc.StaticCallee(); h == nil || cc.IsInvoke() || !w.InRepo(h) || h.Blocks == nil {
+					continue
+				} else {
+					k := -1
+					for i, a := range cc.Args {
+						if elementOf(a, loop.S, loop.Idx) {
+							k = i
+						}
+					}
+					if k < 0 || !validatesParam(w, h, k) {
+						continue
+					}
+				}
 			}
 			dom := true
 			for _, l := range loop.Latches {
@@ -270,6 +292,7 @@ func validatingWalk(w *World, fn *ssa.Function, isSource func(ssa.Value) bool, w
 			}
 		}
 	}
+	var fresh *ssa.MakeSlice
 	if wantCopy {
 		// make([]T, len(S)); out[idx] = elem (converted); return out on Done
 		var store *ssa.Store
@@ -296,6 +319,7 @@ func validatingWalk(w *World, fn *ssa.Function, isSource func(ssa.Value) bool, w
 			return WalkReport{Why: "elements are not copied index-for-index into a fresh result slice", Pos: call}
 		}
 		ms := store.Addr.(*ssa.IndexAddr).X.(*ssa.MakeSlice)
+		fresh = ms
 		lo, ok := lenOperand(ms.Len)
 		if !ok || !sameSlice(lo, loop.S) {
 			return WalkReport{Why: "the result slice is not made with the length of the list walked", Pos: ms}
@@ -323,23 +347,78 @@ func validatingWalk(w *World, fn *ssa.Function, isSource func(ssa.Value) bool, w
 			if !ok || !loop.Done.Dominates(b) {
 				continue
 			}
-			if isNilConst(ret.Results[ei]) && ret.Results[0] != ssa.Value(ms) {
+			if !keepSlice && isNilConst(ret.Results[ei]) && ret.Results[0] != ssa.Value(ms) {
 				return WalkReport{Why: "the success return does not return the slice the elements were copied into", Pos: ret}
 			}
 		}
 	}
-	return WalkReport{OK: true, Detail: fmt.Sprintf("range over the whole list from index 0; Validate() on every element dominates the back edge; err!=nil leaves with an error; success only through the loop exit (header block %d)", loop.Header.Index), Pos: call}
+	return WalkReport{OK: true, Detail: fmt.Sprintf("range over the whole list from index 0; Validate() on every element dominates the back edge; err!=nil leaves with an error; success only through the loop exit (header block %d)", loop.Header.Index), Pos: call, Fresh: fresh}
+}
+
+// validatesParam: every path of h that may return a nil error has called
+// Validate() on h's parameter k and seen it return nil.
+func validatesParam(w *World, h *ssa.Function, k int) bool {
+	ei := errIndex(h)
+	if ei < 0 || k >= len(h.Params) {
+		return false
+	}
+	s := w.SummariseWith(h, func(e *Engine) { e.MaxSteps = 20000 })
+	if ok, _ := s.Complete(); !ok {
+		return false
+	}
+	param := h.Params[k].Name()
+	for _, p := range s.Paths {
+		if p.Ret == nil {
+			continue // a panicking path does not return nil (C05 judges it)
+		}
+		if _, nl := errOf(p, ei); nl == 1 {
+			continue
+		}
+		ok := false
+		for _, ev := range p.St.events {
+			if ev.Kind == "call" && ev.Method == "Validate" && ev.Recv != nil && avSubject(*ev.Recv) == param && p.St.NilOf(ev.Result) == -1 {
+				ok = true
+			}
+		}
+		if !ok {
+			return false
+		}
+	}
+	return len(s.Paths) > 0
 }
 
 // definitelyNonNilErr: the value is the result of fmt.Errorf / errors.New or
 // a load of an init-only sentinel.
-func definitelyNonNilErr(v ssa.Value) bool {
+func definitelyNonNilErr(v ssa.Value) bool { return nonNilErrDepth(v, 0) }
+
+// nonNilErrDepth also accepts a call of a function with a body (an error
+// constructor helper) all of whose returns are themselves definitely non-nil.
+func nonNilErrDepth(v ssa.Value, depth int) bool {
 	v = stripIface(v)
-	if c, ok := v.(*ssa.Call); ok {
-		n := calleeName(&c.Call)
-		return n == "fmt.Errorf" || n == "errors.New"
+	c, ok := v.(*ssa.Call)
+	if !ok || depth > 4 {
+		return false
 	}
-	return false
+	n := calleeName(&c.Call)
+	if n == "fmt.Errorf" || n == "errors.New" {
+		return true
+	}
+	f := c.Call.StaticCallee()
+	if f == nil || f.Blocks == nil || f.Signature.Results().Len() != 1 {
+		return false
+	}
+	rets := 0
+	for _, b := range f.Blocks {
+		for _, in := range b.Instrs {
+			if r, ok := in.(*ssa.Return); ok {
+				rets++
+				if !nonNilErrDepth(r.Results[0], depth+1) {
+					return false
+				}
+			}
+		}
+	}
+	return rets > 0
 }
 
 var _ = types.Typ
@@ -402,6 +481,11 @@ func orderedCopyWalk(w *World, fn *ssa.Function, isSource func(ssa.Value) bool) 
 	if store == nil {
 		return WalkReport{Why: "elements are not copied index-for-index into a fresh result slice"}
 	}
+	for _, l := range loop.Latches {
+		if !store.Block().Dominates(l) {
+			return WalkReport{Why: "an iteration can continue without storing its element", Pos: store}
+		}
+	}
 	ms := store.Addr.(*ssa.IndexAddr).X.(*ssa.MakeSlice)
 	if lo, ok := lenOperand(ms.Len); !ok || !sameSlice(lo, loop.S) {
 		return WalkReport{Why: "the result slice is not made with the length of the list walked"}
@@ -416,4 +500,124 @@ func orderedCopyWalk(w *World, fn *ssa.Function, isSource func(ssa.Value) bool) 
 		}
 	}
 	return WalkReport{OK: true, Detail: "index-for-index copy"}
+}
+
+// validatedThenCopied: the other accepted shape of the container's Values():
+// the container's own Validate() (which R3 judges as a validating walk) has
+// returned nil before the walk starts, and the walk copies every element index
+// for index into the fresh slice that is returned.
+func validatedThenCopied(w *World, fn *ssa.Function, isSource func(ssa.Value) bool) WalkReport {
+	var loop *SliceLoop
+	for _, l := range sliceLoops(fn) {
+		if isSource(l.S) {
+			l := l
+			loop = &l
+		}
+	}
+	if loop == nil {
+		return WalkReport{Why: "no full walk over the element slice found"}
+	}
+	var call *ssa.Call
+	for _, b := range fn.Blocks {
+		for _, in := range b.Instrs {
+			c, ok := in.(*ssa.Call)
+			if !ok {
+				continue
+			}
+			sib := c.Call.StaticCallee()
+			if sib == nil || sib.Signature.Recv() == nil || baseName(sib) != "Validate" || len(c.Call.Args) == 0 {
+				continue
+			}
+			if !types.Identical(sib.Signature.Recv().Type(), fn.Signature.Recv().Type()) && !types.Identical(derefType(sib.Signature.Recv().Type()), derefType(fn.Signature.Recv().Type())) {
+				continue
+			}
+			if !isReceiverOf(fn, c.Call.Args[0]) {
+				continue
+			}
+			call = c
+		}
+	}
+	if call == nil {
+		return WalkReport{Why: "no call of the container's own Validate() on the receiver"}
+	}
+	if !call.Block().Dominates(loop.Header) || !knownNilAt(call, loop.Header) {
+		return WalkReport{Why: "the copy loop can be reached although the container's Validate() did not return nil", Pos: call}
+	}
+	rep := orderedCopyWalk(w, fn, isSource)
+	if !rep.OK {
+		return rep
+	}
+	if len(loop.Done.Preds) != 1 {
+		return WalkReport{Why: "the copy loop has an exit other than running to the end"}
+	}
+	ei := errIndex(fn)
+	for _, b := range fn.Blocks {
+		ret, ok := b.Instrs[len(b.Instrs)-1].(*ssa.Return)
+		if !ok || ei < 0 {
+			continue
+		}
+		ev := ret.Results[ei]
+		mayNil := isNilConst(ev) || !(definitelyNonNilErr(ev) || knownNonNilAt(ev, b))
+		if mayNil && !loop.Done.Dominates(b) {
+			return WalkReport{Why: "a return that may carry a nil error is reachable without finishing the copy", Pos: ret}
+		}
+		if !mayNil {
+			for i, rv := range ret.Results {
+				if i != ei && !isNilConst(rv) {
+					return WalkReport{Why: "a failing path returns a non-nil result besides the error", Pos: ret}
+				}
+			}
+		}
+	}
+	return WalkReport{OK: true, Detail: "the container's own Validate() returned nil before the walk; every element copied index for index into the returned slice", Pos: call}
+}
+
+func derefType(t types.Type) types.Type {
+	if p, ok := t.Underlying().(*types.Pointer); ok {
+		return p.Elem()
+	}
+	return t
+}
+
+// isReceiverOf: v is fn's receiver: the parameter itself, a load through it,
+// or a load of the local the (value) receiver was spilled to and which is
+// written only by that spill.
+func isReceiverOf(fn *ssa.Function, v ssa.Value) bool {
+	recv := ssa.Value(fn.Params[0])
+	if v == recv {
+		return true
+	}
+	ld, ok := v.(*ssa.UnOp)
+	if !ok || ld.Op != token.MUL {
+		return false
+	}
+	if ld.X == recv {
+		return true
+	}
+	al, ok := ld.X.(*ssa.Alloc)
+	if !ok {
+		return false
+	}
+	spills := 0
+	for _, ref := range *al.Referrers() {
+		switch x := ref.(type) {
+		case *ssa.Store:
+			if x.Addr != ssa.Value(al) || x.Val != recv {
+				return false
+			}
+			spills++
+		case *ssa.UnOp, *ssa.DebugRef:
+		case *ssa.FieldAddr:
+			for _, r2 := range *x.Referrers() {
+				switch r2.(type) {
+				case *ssa.UnOp, *ssa.DebugRef:
+				default:
+					return false // the copy of the receiver may be written through this address
+				}
+			}
+		default:
+			return false
+		}
+	}
+	return spills == 1
 }
